@@ -22,7 +22,7 @@ package redis
 // ---------------------------------------------------------------- conn.go
 
 //@ func newConnWith
-//@ assigns cur_uuid, alloc
+//@ assigns cur_uuid, alloc, clock_now
 //@ ensures {C13,C08} result != nil && fresh(result) && result.id == 0 && !result.authrized && result.username == "" && result.password == "" && !result.hasPassword
 //@ ensures {C19} !result.isClosed && result.Conn == conn && result.tlsState == tlsState && result.Context == nil && result.uuid == cur_uuid
 
@@ -652,7 +652,7 @@ package redis
 //@   invariant arrayMsg != nil && 0 <= memberCount && memberCount + (nextMsg != nil ? 1 : 0) <= arrayMsg.index
 //@   invariant {C12} retMsg == H_res[old(H_calls)] && H_calls == old(H_calls) + 1 && retMsg != nil && retMsg.array == arrayMsg && retMsg.Type == proto.ArrayMessage
 //@   invariant {C12} allPresent(retMsg) ==> memberCount + (nextMsg != nil ? 1 : 0) == arrayMsg.index
-//@   invariant {C12} allPresent(retMsg) && nextMsg == nil ==> arrayMsg.index == len(arrayMsg.msgs)
+//@   invariant {C12} nextMsg == nil ==> arrayMsg.index >= len(arrayMsg.msgs) || (1 <= arrayMsg.index && arrayMsg.msgs[arrayMsg.index - 1] == nil && witness(arrayMsg.index - 1))
 //@   decreases len(arrayMsg.msgs) - arrayMsg.index + (nextMsg != nil ? 1 : 0)
 
 //@ executor "ZCARD"
@@ -665,7 +665,7 @@ package redis
 //@   invariant arrayMsg != nil && 0 <= memberCount && memberCount + (nextMsg != nil ? 1 : 0) <= arrayMsg.index
 //@   invariant {C12} retMsg == H_res[old(H_calls)] && H_calls == old(H_calls) + 1 && retMsg != nil && retMsg.array == arrayMsg && retMsg.Type == proto.ArrayMessage
 //@   invariant {C12} allPresent(retMsg) ==> memberCount + (nextMsg != nil ? 1 : 0) == arrayMsg.index
-//@   invariant {C12} allPresent(retMsg) && nextMsg == nil ==> arrayMsg.index == len(arrayMsg.msgs)
+//@   invariant {C12} nextMsg == nil ==> arrayMsg.index >= len(arrayMsg.msgs) || (1 <= arrayMsg.index && arrayMsg.msgs[arrayMsg.index - 1] == nil && witness(arrayMsg.index - 1))
 //@   decreases len(arrayMsg.msgs) - arrayMsg.index + (nextMsg != nil ? 1 : 0)
 
 // allStr(m): an array reply of non-null strings
@@ -681,7 +681,7 @@ package redis
 //@ loop 0
 //@   invariant arrayMsg != nil
 //@   invariant {C12} retMsg == H_res[old(H_calls)] && H_calls == old(H_calls) + 1 && retMsg != nil && retMsg.array == arrayMsg && retMsg.Type == proto.ArrayMessage && member == old(argS(args, 1))
-//@   invariant {C12} allStr(retMsg) && nextMsg == nil ==> arrayMsg.index == len(arrayMsg.msgs)
+//@   invariant {C12} nextMsg == nil ==> arrayMsg.index >= len(arrayMsg.msgs) || (1 <= arrayMsg.index && arrayMsg.msgs[arrayMsg.index - 1] == nil && witness(arrayMsg.index - 1))
 //@   invariant {C12} allStr(retMsg) && nextMsg != nil ==> 1 <= arrayMsg.index && nextMsg == arrayMsg.msgs[arrayMsg.index - 1] && isStr(nextMsg.Type) && nextMsg.bytes != nil && witness(arrayMsg.index - 1)
 //@   invariant {C12} allStr(retMsg) ==> forall k int :: 0 <= k && k < arrayMsg.index - (nextMsg != nil ? 1 : 0) ==> string(arrayMsg.msgs[k].bytes) != member
 //@   decreases len(arrayMsg.msgs) - arrayMsg.index + (nextMsg != nil ? 1 : 0)
